@@ -123,6 +123,16 @@ def gen_cards(rng):
         plain_pts.append({"$ref": f"P{k}"})
     if rng.random() < 0.4:
         plain_pts.append({"$ref": "P0"})  # the same point dict twice in a list
+    if rng.random() < 0.005:
+        # huge: more than 256 points in the shared kinematics list (leading order, three-node grid)
+        base_th["PTO"] = 0
+        base_th.pop("PTODIS", None)
+        base_th["TMC"] = 0
+        base_ob["interpolation_xgrid"] = list(cards.HUGE_GRID)
+        base_ob["interpolation_polynomial_degree"] = 1
+        shared["G0"] = list(cards.HUGE_GRID)
+        for pt in cards.huge_points(rng, rng.randint(257, 290)):
+            plain_pts.append({kk: v for kk, v in pt})
     shared["K0"] = plain_pts
     xs_pts = []
     for k in range(rng.randint(1, 2)):
@@ -150,7 +160,7 @@ def gen_cards(rng):
         if j > 0 and rng.random() < 0.15:
             # another card on the same grid up to the 7th digit of one node
             g = list(shared["G0"])
-            k = rng.randrange(1, len(g) - 1)
+            k = rng.randrange(1, len(g) - 1) if len(g) > 2 else 0
             g[k] = g[k] * (1.0 + rng.choice([1e-7, -1e-7]))
             ob["interpolation_xgrid"] = g
             ob["interpolation_is_log"] = base_ob["interpolation_is_log"]
@@ -172,6 +182,8 @@ def gen_cards(rng):
                 obsd[n] = {"$ref": "K0"} if rng.random() < 0.7 else copy.deepcopy(plain_pts)
         if rng.random() < 0.08:
             obsd[rng.choice(["F2_light", "FL_total"])] = []
+        if rng.random() < 0.04:
+            obsd = {}  # a card without any observable
         ob["observables"] = obsd
         cardsd[f"O{j}"] = ob
     # spellings a YAML author may use
